@@ -840,6 +840,14 @@ class Model:
         if path in _PURE_TEXT_FUNCTIONS and all(isinstance(a, str | int | bool) for a in list(args) + list(kwargs.values())):
             import textwrap
             return getattr(textwrap, name)(*args, **kwargs)  # pure functions of concrete text: evaluated as they are
+        if path in ('functools.lru_cache', 'functools.cache'):
+            from .interp import MemoDecorator, Memoised
+            if path.endswith('.cache') or (len(args) == 1 and not kwargs and isinstance(args[0], FuncRef | Lambda | Memoised)) \
+                    or (len(args) == 1 and not kwargs and hasattr(args[0], 'vp_call')):
+                return Memoised(args[0])
+            return MemoDecorator()
+        if path == 'functools.wraps':
+            return _PyCallable(lambda g: g)  # the wrapper itself (name and docstring play no role)
         if path == 'functools.partial':
             return _Partial(args[0], args[1:], kwargs)
         if path == 'functools.reduce' and len(args) >= 2 and not isinstance(args[1], Opaque):
@@ -902,9 +910,9 @@ class Model:
             if isinstance(args[0], GenResult):
                 # a slice of an iterator takes from it what it needs and leaves the rest to the next reader
                 sl = slice(*args[1:])
-                need = len(args[0]) if sl.stop is None else min(sl.stop, len(args[0]))
-                taken = list(args[0][:need])
-                del args[0][:need]
+                taken = []
+                while (sl.stop is None or len(taken) < sl.stop) and args[0]:
+                    taken.append(args[0].pop(0))
                 return GenResult(itertools.islice(taken, *args[1:]))
             return GenResult(itertools.islice(interp.iterate(args[0], node), *args[1:]))
         if path.startswith('typing.') or path.startswith('dataclasses.'):
@@ -1352,6 +1360,8 @@ class Model:
 
     # ---- builtins --------------------------------------------------------
     def _builtin(self, interp, name, args, kwargs, node):
+        if name == 'id' and len(args) == 1:
+            return interp.object_id(args[0])
         if name == 'abs' and args and isinstance(args[0], SVar):
             return self._elementwise(interp, 'abs', args, kwargs, node)
         if name == 'isinstance':
@@ -1422,6 +1432,8 @@ class Model:
             x = args[0]
             if isinstance(x, SObj):
                 return ClassRef(x.cls)
+            if x is None or type(x) in (int, float, str, bool, bytes, list, tuple, dict, set, frozenset, complex):
+                return ExtRef('builtins.' + type(x).__name__)  # the class of a plain Python value
             return Opaque('type(...)')
         if name == 'super':
             return Opaque('super()')
@@ -1457,7 +1469,7 @@ class Model:
         if name in ('all', 'any', 'sum', 'sorted') and args and isinstance(args[0], Opaque):
             return Opaque(f'{name}(⊤)')
         if name in ('all', 'any'):
-            seq = interp.iterate(args[0], node)
+            seq = interp.pulling(args[0], node)  # stops reading at the deciding element: the rest stays in a one-shot iterator
             res = name == 'all'
             for x in seq:
                 t = interp.truth(x, node)
@@ -1477,11 +1489,26 @@ class Model:
         import builtins
         fn = getattr(builtins, name)
         if name in ('zip',):
-            args = [interp.iterate(a, node) for a in args]
             strict = kwargs.pop('strict', False)
-            if strict and len({len(a) for a in args}) > 1:
-                raise RaiseSignal('ValueError', node, interp.where(node))
-            return GenResult(zip(*args, strict=False))
+            if not any(isinstance(a, GenResult) for a in args):
+                args = [interp.iterate(a, node) for a in args]
+                if strict and len({len(a) for a in args}) > 1:
+                    raise RaiseSignal('ValueError', node, interp.where(node))
+                return GenResult(zip(*args, strict=False))
+            # with one-shot iterators among the arguments the order of reading matters: each round reads the arguments from left
+            # to right and stops at the first exhausted one - what the round already took from the iterators before it is lost
+            readers = [interp.pulling(a, node) for a in args]
+            rows = []
+            while True:
+                row = []
+                for k, r_ in enumerate(readers):
+                    try:
+                        row.append(next(r_))
+                    except StopIteration:
+                        if strict and (k > 0 or any(_has_more(r2) for r2 in readers[1:])):
+                            raise RaiseSignal('ValueError', node, interp.where(node), ('zip() arguments have different lengths',)) from None
+                        return GenResult(rows)
+                rows.append(tuple(row))
         if name in ('enumerate', 'list', 'tuple', 'set', 'frozenset', 'reversed'):
             if args:
                 args = [interp.iterate(args[0], node), *args[1:]]
@@ -1651,6 +1678,14 @@ _DEFAULT_UNIT = _DefaultUnit()
 class _Partial:
     def __init__(self, fn, args, kwargs):
         self.fn, self.args, self.kwargs = fn, args, kwargs
+
+
+def _has_more(reader) -> bool:
+    try:
+        next(reader)
+        return True
+    except StopIteration:
+        return False
 
 
 def _concrete_sort_key(k) -> bool:
